@@ -14,6 +14,7 @@ import os
 import random
 import re
 import shutil
+import signal
 import subprocess
 import sys
 import time
@@ -73,15 +74,23 @@ def sh(cmd, timeout=600, cwd=None, env=None, input=None):
     e = dict(os.environ)
     if env:
         e.update(env)
+    # own process group, so that a timeout kills mpiexec together with the ranks it started
+    p = subprocess.Popen(cmd, cwd=cwd, env=e, stdin=subprocess.PIPE if input is not None else subprocess.DEVNULL,
+                         stdout=subprocess.PIPE, stderr=subprocess.PIPE, shell=isinstance(cmd, str),
+                         universal_newlines=True, errors="replace", start_new_session=True)
     try:
-        p = subprocess.run(cmd, cwd=cwd, env=e, input=input, timeout=timeout,
-                           stdout=subprocess.PIPE, stderr=subprocess.PIPE,
-                           shell=isinstance(cmd, str), universal_newlines=True, errors="replace")
-        return p.returncode, p.stdout, p.stderr
-    except subprocess.TimeoutExpired as ex:
-        out = ex.stdout.decode(errors="replace") if isinstance(ex.stdout, bytes) else (ex.stdout or "")
-        err = ex.stderr.decode(errors="replace") if isinstance(ex.stderr, bytes) else (ex.stderr or "")
-        return 124, out, err
+        out, err = p.communicate(input=input, timeout=timeout)
+        return p.returncode, out, err
+    except subprocess.TimeoutExpired:
+        try:
+            os.killpg(p.pid, signal.SIGKILL)
+        except OSError:
+            pass
+        try:
+            out, err = p.communicate(timeout=10)
+        except Exception:
+            out, err = "", ""
+        return 124, out or "", err or ""
 
 
 class _Lock:
